@@ -2,12 +2,14 @@ pub mod c03;
 pub mod c10;
 pub mod c11;
 pub mod c12;
+pub mod c14;
 pub mod c15;
 pub mod c16;
 pub mod c17;
 pub mod c18;
 pub mod c19;
 pub mod c20;
+pub mod plugsmoke;
 pub mod smoke;
 pub mod tower;
 
@@ -19,6 +21,7 @@ pub fn dispatch(ctx: &Ctx) -> i32 {
         "C10" => c10::run(ctx),
         "C11" => c11::run(ctx),
         "C12" => c12::run(ctx),
+        "C14" => c14::run(ctx),
         "C15" => c15::run(ctx),
         "C16" => c16::run(ctx),
         "C17" => c17::run(ctx),
@@ -26,6 +29,7 @@ pub fn dispatch(ctx: &Ctx) -> i32 {
         "C19" => c19::run(ctx),
         "C20" => c20::run(ctx),
         "SMOKE" => smoke::run(ctx),
+        "PLUGSMOKE" => plugsmoke::run(ctx),
         "C01" | "C02" | "C04" | "C06" | "C07" | "C08" | "C09" | "C11H" => tower::run(ctx),
         other => {
             eprintln!("no check for {other}");
